@@ -120,9 +120,24 @@ pub const ZM: (usize, usize) = {
     (c.len(), r.len())
 };
 pub const ZOK: bool = GenericArray::<u64, U0>::try_from_slice(&[]).is_ok() && GenericArray::<u64, U0>::try_from_slice(&[1]).is_err();
+// zero-sized elements in const position: the LENGTH decides, not the byte size (which is always 0)
+pub const ZST_OK: bool = GenericArray::<(), U3>::try_from_slice(&[(); 3]).is_ok()
+    && GenericArray::<(), U3>::try_from_slice(&[(); 5]).is_err()
+    && GenericArray::<(), U3>::try_from_slice(&[(); 2]).is_err()
+    && GenericArray::<(), U0>::try_from_slice(&[(); 1]).is_err();
+pub const ZST_CHUNKS: (usize, usize) = {
+    let (c, r) = GenericArray::<(), U3>::chunks_from_slice(&[(); 7]);
+    (c.len(), r.len())
+};
+pub const ZST_MUT: bool = {
+    let mut z = [(); 4];
+    GenericArray::<(), U3>::try_from_mut_slice(&mut z).is_err()
+};
 #[kani::proof]
 pub fn c18_const_n0() {
     kani::assert(Z.0 == 0 && Z.1 == 0 && ZM.0 == 0 && ZM.1 == 0, "C18.chunks_from_slice(_mut)(const, N=0): an empty slice gives two empty results");
     kani::assert(ZOK, "C18.try_from_slice(const, N=0): Ok exactly for the empty slice");
+    kani::assert(ZST_OK && ZST_MUT, "C18.try_from_slice / try_from_mut_slice(const, zero-sized elements): Ok exactly for length N");
+    kani::assert(ZST_CHUNKS.0 == 2 && ZST_CHUNKS.1 == 1, "C18.chunks_from_slice(const, zero-sized elements): floor(L/N) chunks and L mod N remainder");
     kani::cover!(true, "end reachable");
 }
